@@ -14,18 +14,23 @@ res="id=$ID m=$(basename $M)"
 if ! git -C $S apply --check $M/patch.diff 2>/dev/null; then echo "$res APPLY=no"; exit 0; fi
 rundemo() {
   local any=0 bad=0
+  declare -A tests_by_dir tag_by_dir
+  local copied=()
   for demo in $M/demo*_test.go; do
     [ -f "$demo" ] || continue
     any=1
     pkgdir=$(grep -oE '(pkg|internal|cmd)/[A-Za-z0-9_/]+' $demo | while read d; do d=${d%/}; [ -d $S/$d ] && echo $d && break; done | head -1)
     [ -z "$pkgdir" ] && { echo "nodir"; return; }
-    tag=$(grep -m1 '^//go:build' $demo | sed 's#//go:build ##')
     dst=$S/$pkgdir/zz_$(basename $demo .go | tr -c 'A-Za-z0-9_\n' '_')_mutdemo_test.go
-    cp $demo $dst
-    tests=$(grep -oE '^func (Test[A-Za-z0-9_]+)' $demo | awk '{print $2}' | paste -sd'|')
-    (cd $S && go test -tags "verif $tag" -vet=off -count=1 -run "^($tests)\$" ./$pkgdir/ >/tmp/mutdemo.$$.out 2>&1) || bad=1
-    rm -f $dst
+    cp $demo $dst; copied+=($dst)
+    t=$(grep -oE '^func (Test[A-Za-z0-9_]+)' $demo | awk '{print $2}' | paste -sd'|')
+    [ -n "$t" ] && tests_by_dir[$pkgdir]="${tests_by_dir[$pkgdir]:+${tests_by_dir[$pkgdir]}|}$t"
+    tag_by_dir[$pkgdir]="${tag_by_dir[$pkgdir]} $(grep -m1 '^//go:build' $demo | sed 's#//go:build ##' | tr -d '&|()!')"
   done
+  for pkgdir in "${!tests_by_dir[@]}"; do
+    (cd $S && go test -tags "verif mutdemo ${tag_by_dir[$pkgdir]}" -vet=off -count=1 -run "^(${tests_by_dir[$pkgdir]})\$" ./$pkgdir/ >/tmp/mutdemo.$$.out 2>&1) || bad=1
+  done
+  for f in "${copied[@]}"; do rm -f $f; done
   if [ -d $M/demo ]; then
     any=1
     rm -rf $S/zzmutdemo; cp -r $M/demo $S/zzmutdemo
